@@ -48,10 +48,51 @@ func (g *Gen) havocVal(v ssa.Value, st *State) Term {
 }
 
 func (g *Gen) safety(kind string, in ssa.Instruction, goal Term) {
-	g.rootGen().deferObl("safety", kind, g.reach[g.curBlock], goal, "")
-	// execution continues past this point only if the check passed (otherwise
-	// the program panics and no postcondition applies): assert-then-assume
-	g.assert(fmt.Sprintf("(=> %s %s)", g.reach[g.curBlock], goal))
+	// Execution continues past this point only if the check passed (otherwise
+	// the program panics and no postcondition applies). The check may use
+	// that every EARLIER check passed, never itself or a later one: sf!i is
+	// a defined Boolean "checks 1..i passed", site i is proved under sf!(i-1),
+	// and everything that is not a safety obligation is proved under the
+	// last sf (checks on other paths are guarded by their reachability).
+	g.check("safety", kind, g.reach[g.curBlock], goal, "")
+}
+
+// prefix is the Boolean "every check generated so far passed".
+func (g *Gen) prefix() Term {
+	if g.sfPrefix == "" {
+		return "true"
+	}
+	return g.sfPrefix
+}
+
+// chain extends the prefix with one more check.
+func (g *Gen) chain(part Term) {
+	prev := g.prefix()
+	g.shared.sfN++
+	name := fmt.Sprintf("sf!%d", g.shared.sfN)
+	g.declare(name, "Bool")
+	g.assert(fmt.Sprintf("(= %s (and %s %s))", name, prev, part))
+	g.shared.sfPrefix = name
+}
+
+// check registers one site of a (merged) chained obligation: proved under the
+// prefix of earlier checks, then added to the prefix. Assumptions that are
+// justified by a check (callee postconditions by the callee's preconditions,
+// loop-head invariants by their entry check) are guarded by the prefix, so a
+// check can never be discharged from an assumption that depends on it.
+func (g *Gen) check(kind, label string, reach, goal Term, src string) {
+	part := fmt.Sprintf("(=> %s %s)", reach, goal)
+	g.rootGen().deferObl(kind, label, g.prefix(), part, src)
+	g.chain(part)
+}
+
+// guarded is the condition under which an assumption made at the current
+// point is in force: the point is reached and no earlier check failed.
+func (g *Gen) guarded(reach Term) Term {
+	if g.sfPrefix == "" {
+		return reach
+	}
+	return fmt.Sprintf("(and %s %s)", g.sfPrefix, reach)
 }
 
 var srcLines = map[string][]string{}
@@ -180,7 +221,7 @@ func (g *Gen) instr(in ssa.Instruction, st *State) *State {
 	case *ssa.Lookup:
 		g.lookup(x, st)
 	case *ssa.Range:
-		g.rangeInit(x, st)
+		return g.rangeInit(x, st)
 	case *ssa.Next:
 		return g.rangeNext(x, st)
 	case *ssa.If, *ssa.Jump:
@@ -254,7 +295,11 @@ func (g *Gen) binop(x *ssa.BinOp, st *State) Term {
 		op := map[token.Token]string{token.ADD: "+", token.SUB: "-", token.MUL: "*"}[x.Op]
 		e := fmt.Sprintf("(%s %s %s)", op, a, b)
 		lo, hi := intRange(bi)
-		g.rootGen().deferObl("safety", "ovf", g.reach[g.curBlock],
+		ovfReach := g.reach[g.curBlock]
+		if g.sfPrefix != "" {
+			ovfReach = fmt.Sprintf("(and %s %s)", g.sfPrefix, ovfReach)
+		}
+		g.rootGen().deferObl("safety", "ovf", ovfReach,
 			fmt.Sprintf("(and (<= %s %s) (<= %s %s))", intLit(lo), e, e, intLit(hi)), "")
 		if x.Op != token.MUL {
 			return wrap1(e, bi)
@@ -393,6 +438,15 @@ func (g *Gen) equal(t types.Type, a, b Term, st *State) Term {
 			}
 			if len(parts) == 0 {
 				return "true"
+			}
+			if typeKey(x.Elem()) == "uint8" && n >= 8 {
+				// byte arrays: the same comparison also as equality of the two
+				// byte strings (equivalent by extensionality; stated so that
+				// contracts over whole byte strings need no pointwise reasoning)
+				eq := g.fresh("aeq", "Bool")
+				g.assert(fmt.Sprintf("(= %s (and %s))", eq, strings.Join(parts, " ")))
+				g.assert(fmt.Sprintf("(= %s (= (mk.bytes %d (win %s 0 %d)) (mk.bytes %d (win %s 0 %d))))", eq, n, a, n, n, b, n))
+				return eq
 			}
 			return "(and " + strings.Join(parts, " ") + ")"
 		}
